@@ -196,23 +196,27 @@ pub fn run(run: &Run) {
                 if k % 61 != 0 || (k / 61) % n != tid {
                     continue;
                 }
-                for (ri, reps) in [254usize, 255, 256, 257, 258, 511, 512, 513, 255, 256, 257].into_iter().enumerate() {
-                    for _ in 0..reps {
+                // exact counts: j lookups of cp through ONE class and ONE entry point, then the neighbour; a miss on the neighbour
+                // refills the slot, so each j starts from a fresh fill of cp
+                for j in (250usize..=262).chain(507..=520).chain(1020..=1030) {
+                    for _ in 0..j {
                         std::hint::black_box(idc.get_value_from_codepoint(cp));
-                        if ri < 8 {
-                            std::hint::black_box(ffc.get_value_from_codepoint(cp)); // the last three rounds use one class only
-                        }
                     }
                     l.cases += 1;
-                    l.evals_n(2 * reps as u64);
-                    for x in [nb, cp] {
-                        if let Err(mut e) = check_cp(x, l) {
-                            e.case = json!({"op": "classify_after_repeats", "cp_value": x, "repeated": cp, "times": reps});
-                            run.violate(e);
-                            return;
-                        }
+                    l.evals_n(j as u64 + 2);
+                    let got_nb = Dpv::of(idc.get_value_from_codepoint(nb));
+                    let got_cp = Dpv::of(idc.get_value_from_codepoint(cp));
+                    if got_nb != d.id(nb) || got_cp != d.id(cp) {
+                        let (x, got, want) = if got_nb != d.id(nb) { (nb, got_nb, d.id(nb)) } else { (cp, got_cp, d.id(cp)) };
+                        run.violate(Violation::new(
+                            json!({"op": "classify_after_repeats", "cp_value": x, "repeated": cp, "times": j, "class": "IdentifierClass", "entry": "codepoint"}),
+                            format!("{want:?} (independent of earlier calls)"),
+                            format!("{got:?} after {j} lookups of U+{cp:04X}"),
+                        ));
+                        return;
                     }
                 }
+                let _ = &ffc;
             }
         }
     });
@@ -248,9 +252,14 @@ pub fn replay(_run: &Run, case: &Value) -> Check {
         }
     }
     if let (Some(r), Some(t)) = (case.get("repeated").and_then(|v| v.as_u64()), case.get("times").and_then(|v| v.as_u64())) {
+        // a miss on the probed value first (fresh fill of the repeated one afterwards), then the exact number of lookups
+        std::hint::black_box(IdentifierClass::default().get_value_from_codepoint(cp));
         for _ in 0..t {
             std::hint::black_box(IdentifierClass::default().get_value_from_codepoint(r as u32));
-            std::hint::black_box(FreeformClass::default().get_value_from_codepoint(r as u32));
+        }
+        let got = Dpv::of(IdentifierClass::default().get_value_from_codepoint(cp));
+        if got != db().id(cp) {
+            return Err(Violation::new(case.clone(), format!("{:?}", db().id(cp)), format!("{got:?}")));
         }
     }
     check_cp(cp, &mut Local::default())
